@@ -366,30 +366,29 @@ def Recipe.eval (r : Recipe) (t : Text) (src : Option PPath) (cwd : PPath) : Exc
 /-- The recipe the model's `resolvedPath` implements (`Props/C17.lean`: `recipe_sound` proves
     that, `tie_resolved_path` proves the Python source still has exactly this recipe). -/
 def recipeModel : Recipe where
-  guards := [(.and (.startsWith ['<']) (.endsWith ['>']), .value)]
+  guards := [(.and (.endsWith ['>']) (.startsWith ['<']), .value)]
   cond := .and (.not (.isAbs .ofText)) .srcSome
   thenE := .join (.parent .src) .ofText
   elseE := .ofText
 
-/-- Shape facts of the surrounding plumbing (translator: `Gen.plumbing`), in the order:
-    `parse_file` reads the very path object it then publishes through `source_path_context`;
-    `source_path_context` stores its argument in the context variable; `NixPath.from_cst` reads
-    that variable into `source_path`; `_follow_import` raises `TypeError` unless the argument
-    (after `_resolve_argument` stripped parentheses) is a `NixPath`, and calls
-    `parse_file(argument.resolved_path())`; `Import.__getitem__` indexes what `_follow_import`
-    returned. -/
+/-- Data flow of the plumbing around `resolved_path`, every local variable inlined (translator:
+    `Gen.plumbing`; `CV` is the module-level context variable, `arg` the function's parameter):
+    `parse_file` reads the very `Path(arg)` it publishes through `source_path_context` and parses
+    inside that context; the context manager stores its argument in `CV`; `NixPath.from_cst` reads
+    `CV` into `source_path` and the raw node text into `path`; `_resolve_argument` strips
+    `Parenthesis`; `_follow_import` raises `TypeError` unless the stripped argument is a `NixPath`
+    and calls `parse_file` on its `resolved_path()`; `Import.__getitem__` indexes the result. -/
 def plumbingModel : List (String × String) := [
-  ("parse_file.normalises", "Path(arg)"),
-  ("parse_file.reads", "path"),
-  ("parse_file.context", "path"),
-  ("parse_file.source_path", "path"),
-  ("source_path_context.sets", "arg"),
-  ("from_cst.captures", "contextvar"),
-  ("resolve_argument.strips", "Parenthesis"),
-  ("follow_import.requires", "NixPath"),
-  ("follow_import.raises", "TypeError"),
-  ("follow_import.calls", "parse_file(argument.resolved_path())"),
-  ("getitem.indexes", "follow_import()[key]")
-]
+  ("parse_file.returns", "within[source_path_context(Path(arg))](parse(Path(arg).read_text(), source_path=Path(arg)))"),
+  ("contextvar.default", "None"),
+  ("source_path_context.calls", "CV.set(arg); yield; finally; CV.reset(CV.set(arg))"),
+  ("from_cst.path", "node.text.decode()"),
+  ("from_cst.source_path", "CV.get()"),
+  ("resolve_argument.guards", "self.argument is None -> TypeError"),
+  ("resolve_argument.loops", "x=self.argument; while isinstance(x, Parenthesis): x=x.value"),
+  ("resolve_argument.returns", "loop"),
+  ("follow_import.guards", "not isinstance(self._resolve_argument(), NixPath) -> TypeError"),
+  ("follow_import.returns", "parse_file(self._resolve_argument().resolved_path())"),
+  ("getitem.returns", "self._follow_import()[key]")]
 
 end Nima
